@@ -426,6 +426,27 @@ impl YWorld {
                 }
                 self.flush_peer(n)
             }
+            "fragment" => {
+                // one transaction that leaves more than a thousand separate deleted ranges of one
+                // client: every wire format has to carry a delete set of any size
+                if n >= self.peers.len() {
+                    return Ok(());
+                }
+                let count = arg.clamp(10, 3000) as u32;
+                {
+                    let doc = self.peers[n].aw.doc().clone();
+                    let t = doc.get_or_insert_text(crate::dump::ROOT_TEXT);
+                    let mut txn = doc.transact_mut();
+                    let at = yrs::Text::len(&t, &txn);
+                    let s: String = std::iter::repeat("ab").take(count as usize).collect();
+                    yrs::Text::insert(&t, &mut txn, at, &s);
+                    for i in (0..count).rev() {
+                        yrs::Text::remove_range(&t, &mut txn, at + 2 * i, 1);
+                    }
+                }
+                probe(&mut self.stats, "ysync.fragmented-delete-set");
+                self.flush_peer(n)
+            }
             "aw-timeout" => {
                 // provider-level timer (30 s in y-protocols): drop remote clients not heard of for too long
                 if n >= self.peers.len() {
@@ -518,6 +539,16 @@ impl YWorld {
             3 => sp(0, "reset", vec![self.rng.below(nc)], vec![]),
             4 => {
                 let n = self.rng.idx(np);
+                if self.rng.chance(2) {
+                    let count = *self.rng.pick(&[300u64, 1100, 1500]);
+                    let tev = TraceEv { eid, ev: sp(n, "fragment", vec![count], vec![]) };
+                    self.trace.push(tev.clone());
+                    self.exec(&tev).map_err(|mut v| {
+                        v.at_eid = eid;
+                        v
+                    })?;
+                    return Ok(true);
+                }
                 match self.rng.below(10) {
                     0..=3 => sp(n, "aw-set", vec![], vec![format!("{{\"cursor\":{}}}", self.tags.int())]),
                     4..=5 => sp(n, "aw-heartbeat", vec![], vec![]),
